@@ -6,74 +6,46 @@
    counters : Gen.ArithFromGo.go_nextSequenceNumber / go_nextRequestID (translated from the Go AST on every run)
    tie   : schedharness c11 forces schedules on the real channel through the verifhook scheduling points and the
            captured wire must be the model's wire for the same schedule.
-   Model.ChannelSchedBeforeFix is the same semantics for the code before the fixes dd66ad2 / 5bac950; it is kept only
-   for the *_before_fix theorems. *)
+   Model.ChannelSchedBeforeFix is the same semantics for the code before the fixes dd66ad2 / 5bac950, and
+   Model.ChannelSchedBeforeGapFix for the code before fix bf63793; they are kept only for the *_before_fix theorems. *)
 From Coq Require Import ZArith List Bool Lia String.
 From Opcua Require Import Gen.ArithFromGo Gen.SendSide Model.ChannelSched Proofs.ChannelSchedProofs.
-From Opcua Require Model.ChannelSchedBeforeFix.
+From Opcua Require Model.ChannelSchedBeforeFix Model.ChannelSchedBeforeGapFix.
 Import ListNotations.
 Open Scope Z_scope.
 
 Module Old := Opcua.Model.ChannelSchedBeforeFix.
+Module Gap := Opcua.Model.ChannelSchedBeforeGapFix.
 
-(* the chunks on the connection, newest first (the model's send log without its GAP entries) *)
-Definition on_wire (s : st) : list chunk := wire_rev_visible s.
+Definition wire_ok (s : st) : Prop :=
+  consecutive_rev (wire_rev s) = true /\ contiguous_rev (wire_rev s) = true.
 
-(* the full statement *)
-Definition C11_statement : Prop := forall seq0 req0 s, reachable seq0 req0 s ->
-  consecutive_rev (on_wire s) = true /\ contiguous_rev (on_wire s) = true.
+(* FULL: under EVERY interleaving of any number of senders (any message sizes, sends failing before or between chunks)
+   and any number of renewals (succeeding or failing)
+     - every chunk on the wire carries the successor of the number of the chunk written before it, and
+     - every chunk either continues the message of the chunk written just before it or starts a message of which
+       nothing was written before (chunks of two messages never interleave; a message abandoned after some chunks is
+       never resumed) *)
+Theorem C11_sequence_numbers_consecutive_and_messages_never_interleaved :
+  forall seq0 req0 s, reachable seq0 req0 s -> wire_ok s.
+Proof. intros seq0 req0 s R. split; [eapply wire_consecutive_full|eapply wire_contiguous_full]; exact R. Qed.
 
-(* FULL, second half: under EVERY interleaving of any number of senders (any message sizes, sends failing at any point)
-   and any number of renewals (succeeding or failing) every chunk either continues the message of the chunk written
-   just before it or starts a message of which nothing was written before: chunks of two messages never interleave *)
-Theorem C11_messages_never_interleaved : forall seq0 req0 s, reachable seq0 req0 s -> contiguous_rev (on_wire s) = true.
-Proof. intros; eapply wire_contiguous_full; eassumption. Qed.
-
-(* FULL, first half up to used-up numbers: under every interleaving the sequence counter never repeats or skips:
-   the send log -- the chunks plus one GAP entry for every request that failed after taking its first number but
-   before writing anything -- carries consecutive numbers *)
-Theorem C11_counter_never_repeats_or_skips : forall seq0 req0 s, reachable seq0 req0 s -> consecutive_rev (wire_rev s) = true.
-Proof. intros; eapply log_consecutive_full; eassumption. Qed.
-
-(* REFUTED: a request that fails before its first chunk is written (context already done, encoding or size-limit
-   error, first sign/write error) has taken a number in newRequestMessage that never reaches the wire: a gap *)
-Definition early_failure_schedule : list ev :=
-  [ESpawn 0; EGate 0; EActive 0; EId 0; ELockI 0; EChunk 0; EUnlockI 0; EDone 0;
-   ESpawn 0; EGate 1; EActive 1; EId 1; ELockI 1; EFail 1; EUnlockI 1; EDone 1;
-   ESpawn 0; EGate 2; EActive 2; EId 2; ELockI 2; EChunk 2]%nat.
-
-Theorem C11_refuted_early_failure_gap : exists s,
-  reachable 1 1 s /\ consecutive_rev (on_wire s) = false /\ wire_obs s = [(2, 2, true, false); (4, 4, true, false)].
-Proof. eexists. split; [exists early_failure_schedule; vm_compute; reflexivity|]. split; vm_compute; reflexivity. Qed.
-
-Theorem C11_refuted : ~ C11_statement.
-Proof.
-  intro H. destruct C11_refuted_early_failure_gap as (s & R & C & _). destruct (H 1 1 s R) as [X _]. congruence.
-Qed.
-
-(* PARTIAL: on every run on which no send fails before its first chunk (sends may still fail between chunks, renewals
-   may fail, any number of threads, every interleaving) the chunks on the wire carry consecutive numbers *)
-Theorem C11_partial_consecutive : forall seq0 req0 s,
-  reachableP no_early_fail seq0 req0 s -> consecutive_rev (on_wire s) = true /\ contiguous_rev (on_wire s) = true.
-Proof.
-  intros seq0 req0 s R. split; [eapply wire_consecutive_partial; exact R|].
-  apply contig_filter. exact (K1 _ (reachable_inv3 _ _ _ _ R)).
-Qed.
-
-(* the hypothesis is satisfiable: a renewal under load with the counter wrapping.  Sender 0 (3 chunks) is counted
-   before the renewal locks the gate, so the renewal waits for it; sender 1 is held at the gate, uses the new
-   instance and FAILS after its first chunk; a second renewal fails after its OPN and hands the counter back *)
-Example C11_partial_nonvacuous : exists s,
-  reachableP no_early_fail 4294966270 7 s /\ renewals s = 1%nat /\
+(* not vacuous: a renewal under load with the counter wrapping.  Sender 0 (3 chunks) is counted before the renewal
+   locks the gate, so the renewal waits for it; sender 1 is held at the gate, uses the new instance and FAILS after its
+   first chunk; sender 2 fails BEFORE its first chunk (its number is handed back); a second renewal fails after its
+   OPN and hands the counter back; sender 3 goes on *)
+Example C11_nonvacuous : exists s,
+  reachable 4294966270 7 s /\ renewals s = 1%nat /\
   wire_obs s = [(4294966271, 8, false, false); (4294966272, 8, false, false); (1, 8, true, false); (2, 9, true, true);
-                (3, 10, false, false); (4, 11, true, true); (5, 12, true, false)].
+                (3, 10, false, false); (4, 12, true, true); (5, 13, true, false)].
 Proof.
   eexists. split.
   - exists [ESpawn 2; ESpawn 1; EGate 0; ERenStart; ERenGate; EActive 0; EId 0; ELockI 0; EChunk 0; EChunk 0; EChunk 0;
             EUnlockI 0; EDone 0; ERenDrain; ERenLock; ERenCopy; ERenOpn; ERenInstall; ERenUnlock;
             EGate 1; EActive 1; EId 1; ELockI 1; EChunk 1; EFail 1; EUnlockI 1; EDone 1;
+            ESpawn 0; EGate 2; EActive 2; EId 2; ELockI 2; EFail 2; EUnlockI 2; EDone 2;
             ERenStart; ERenGate; ERenDrain; ERenLock; ERenCopy; ERenOpn; ERenFail; ERenUnlock;
-            ESpawn 0; EGate 2; EActive 2; EId 2; ELockI 2; EChunk 2]%nat.
+            ESpawn 0; EGate 3; EActive 3; EId 3; ELockI 3; EChunk 3]%nat.
     vm_compute. reflexivity.
   - split; vm_compute; reflexivity.
 Qed.
@@ -128,6 +100,19 @@ Theorem C11_refuted_before_fix_failed_renewal : exists s,
   Old.wire_obs s = [(2, 2, true, true); (2, 3, true, false)].
 Proof. eexists. split; [exists failed_renewal_schedule; vm_compute; reflexivity|]. split; vm_compute; reflexivity. Qed.
 
+(* (4) before fix bf63793: a request that failed before its first chunk was written (context already done, encoding or
+   size-limit error, duplicate request id, failing first write) had taken a number that never reached the wire *)
+Theorem C11_refuted_before_fix_early_failure_gap : exists s,
+  Gap.reachable 1 1 s /\ Gap.consecutive_rev (Gap.wire_rev_visible s) = false /\
+  Gap.wire_obs s = [(2, 2, true, false); (4, 4, true, false)].
+Proof.
+  eexists. split.
+  - exists [Gap.ESpawn 0; Gap.EGate 0; Gap.EActive 0; Gap.EId 0; Gap.ELockI 0; Gap.EChunk 0; Gap.EUnlockI 0; Gap.EDone 0;
+            Gap.ESpawn 0; Gap.EGate 1; Gap.EActive 1; Gap.EId 1; Gap.ELockI 1; Gap.EFail 1; Gap.EUnlockI 1; Gap.EDone 1;
+            Gap.ESpawn 0; Gap.EGate 2; Gap.EActive 2; Gap.EId 2; Gap.ELockI 2; Gap.EChunk 2]%nat. vm_compute. reflexivity.
+  - split; vm_compute; reflexivity.
+Qed.
+
 Theorem C11_refuted_before_fix : ~ C11_statement_before_fix.
 Proof.
   intro H. destruct C11_refuted_before_fix_renewal_window as (s & R & C & _).
@@ -156,15 +141,12 @@ Theorem C11_tie_source_shape :
   src_open_copies_sequence_number = true /\ src_open_hands_sequence_number_back = true.
 Proof. repeat split; reflexivity. Qed.
 
-Print Assumptions C11_messages_never_interleaved.
-Print Assumptions C11_counter_never_repeats_or_skips.
-Print Assumptions C11_refuted_early_failure_gap.
-Print Assumptions C11_refuted.
-Print Assumptions C11_partial_consecutive.
+Print Assumptions C11_sequence_numbers_consecutive_and_messages_never_interleaved.
 Print Assumptions C11_renewal_waits_for_counted_senders.
 Print Assumptions C11_refuted_before_fix_renewal_window.
 Print Assumptions C11_refuted_before_fix_interleaved_messages.
 Print Assumptions C11_refuted_before_fix_failed_renewal.
+Print Assumptions C11_refuted_before_fix_early_failure_gap.
 Print Assumptions C11_refuted_before_fix.
 Print Assumptions C11_sequence_step.
 Print Assumptions C11_tie_source_shape.
